@@ -201,7 +201,8 @@ def check(case, rec):
             # an unweighted count holds no row-aligned argument, so the same object may also serve a cube with
             # ANOTHER number of rows: it must not remember anything about the first one
             other_rows = []
-            counts_only = [i for i, f in enumerate(funcs) if f["agg"] == "count" and not f["weighted"]]
+            scalar_w = warg is not None and not isinstance(warg, (tuple, list, numpy.ndarray))
+            counts_only = [i for i, f in enumerate(funcs) if f["agg"] == "count" and (not f["weighted"] or scalar_w)]
             if counts_only and dense and N >= 2:
                 extra = [numpy.concatenate([a, a[: 1 + N // 2]], axis=0) for a in dense]
                 if kind == "ccube":
